@@ -35,7 +35,7 @@ class C13(Prop):
     lean_exe = "c13_driver"
     harness = None               # the runner is a python script; extra_checks() builds the tools and installs it
     theorems = ["EaselModel.Props.C13." + t for t in G.THEOREMS]
-    claimed = False
+    claimed = True
     diverge_is_violation = True  # reference cases: the model is the specification (manual-page definition) of the tool's stdout
     quick_budget_s = 90
     thorough_budget_s = 900
